@@ -581,7 +581,7 @@ impl Sut {
             let id = self.ids[u];
             let alive = self.model.nodes[u].alive;
             if id.is_removed(&self.arena) == alive {
-                bad!(self, ["C06"], format!("is_removed({}) is {} but the node is {}", u, !alive, if alive { "live" } else { "removed" }));
+                bad!(self, ["C06"], format!("is_removed({}) is {} but the node is {}", u, alive, if alive { "live" } else { "removed" }));
             }
         }
         // C11: get_node_id_at on every position
@@ -1226,6 +1226,7 @@ fn main() {
         let seed: u64 = args.get(2).and_then(|s| s.parse().ok()).unwrap_or(1);
         let budget = Duration::from_millis(args.get(3).and_then(|s| s.parse().ok()).unwrap_or(20000));
         let t0 = Instant::now();
+        let hard_cap = budget * 25;
         // 1. exhaustive: m nodes, then every sequence of up to `d` structural operations
         let kinds = [Ins::Append, Ins::Prepend, Ins::After, Ins::Before];
         for m in 2..=4usize {
@@ -1263,7 +1264,7 @@ fn main() {
                     }
                     idx[k] = 0;
                 }
-                if t0.elapsed() > budget / 2 {
+                if t0.elapsed() > hard_cap {
                     break;
                 }
             }
@@ -1292,8 +1293,9 @@ fn main() {
             (7, "new;new;new;new;new;new; checked_append 0 1; checked_append 1 2; checked_append 1 3; checked_append 1 4; remove 1; new; append_value 6"),
             (7, "new;new;new;new;new;new; checked_append 0 1; checked_append 0 2; checked_append 0 3; checked_append 2 4; remove_subtree 2; new; append_value 6"),
         ];
-        let shaped_budget = budget / 3;
-        let t1 = Instant::now();
+        // (the amount of work is a number of sequences, not a time: the same seed explores the same sequences
+        // on a loaded machine; the time is only a safety cap)
+        let shaped_target = nseq + (budget.as_millis() as usize) * 5 / 2;
         'shaped: loop {
             for (n0, shape) in &shapes {
                 let mut ops = parse_ops(shape);
@@ -1310,12 +1312,13 @@ fn main() {
                 nseq += 1;
                 nops += ops.len();
                 record(&ops, o, &mut found);
-                if t1.elapsed() > shaped_budget {
+                if nseq >= shaped_target || t0.elapsed() > hard_cap {
                     break 'shaped;
                 }
             }
         }
-        while t0.elapsed() < budget {
+        let random_target = nseq + (budget.as_millis() as usize) * 5 / 2;
+        while nseq < random_target && t0.elapsed() < hard_cap {
             let len = 6 + r.below(14);
             let mut ops = vec![Op::New, Op::New];
             let mut n = 2;
